@@ -27,7 +27,11 @@ AnyNode(n, K) == LET m == Core(n)  ks == Kids(n) IN m.k \in K \/ \E i \in 1..Len
 Seeking == {"Pointer", "Seek", "Peek", "Union", "Lazy", "LazyStruct", "LazyArray", "OffsettedEnd", "RestreamData"}
 Sequential(n) == ~AnyNode(n, Seeking)
 Recovering == {"Select", "GreedyRange", "Peek", "Union"}
-NoRecover(n) == ~AnyNode(n, Recovering)
+RECURSIVE HasLenientTerminator(_)
+HasLenientTerminator(n) == LET m == Core(n)  ks == Kids(n) IN
+    (m.k = "NullTerminated" /\ ~m.require) \/ \E i \in 1..Len(ks) : HasLenientTerminator(ks[i])
+\* no construct that absorbs a failure of its member (a stream fault inside it may legitimately be taken for "no match")
+NoRecover(n) == ~AnyNode(n, Recovering) /\ ~HasLenientTerminator(n)
 \* "without greedy, optional or look-ahead parts" (C06, truncation clause)
 GreedyKinds == {"GreedyBytes", "GreedyRange", "NullStripped", "ProcessXor", "ProcessRotateLeft", "Terminated",
                 "Select", "Peek", "Pointer", "Union", "Seek", "OffsettedEnd", "Compressed", "StopIf", "RepeatUntil"}
